@@ -13,6 +13,10 @@ class AnchorMissing(Exception):
     """An anchored qualified name does not exist any more -> exit 2."""
 
 
+# node classes of which the ast module keeps one shared instance (expression contexts, operators): they must not carry tree links
+_SHARED_NODES = (ast.expr_context, ast.operator, ast.boolop, ast.unaryop, ast.cmpop)
+
+
 class Undecided(Exception):
     """A rule met a form it does not recognise -> exit 2, never a violation."""
 
@@ -465,7 +469,8 @@ class Module:
         self.tree._parent = None
         for node in ast.walk(self.tree):
             for child in ast.iter_child_nodes(node):
-                child._parent = node
+                if not isinstance(child, _SHARED_NODES):         # Load() / Add() ... are single objects shared by every tree
+                    child._parent = node
         self.modname = rel[:-3].replace('/', '.')
         if self.modname.endswith('.__init__'):
             self.modname = self.modname[:-9]
@@ -772,7 +777,8 @@ class Repo:
         node._parent = None
         for n in ast.walk(node):
             for ch in ast.iter_child_nodes(n):
-                ch._parent = n
+                if not isinstance(ch, _SHARED_NODES):
+                    ch._parent = n
         return Fn(self, fn.qn, fn.mod, node, fn.cls)
 
     # ---------------------------------------------------------------- lookup
